@@ -139,6 +139,21 @@ def r02_1(ctx):
             ctx.violation([b.name, "second-pass-site"], "a file is re-run (is_first_pass=false) from a site that is neither the notify_finish release loop "
                           "nor the all-dependencies-already-finished edge of add_dependency: it could run before its dependencies are complete",
                           site=site, witness=C.witness(b, bb, ad_false))
+    # .. and the re-run is not optional: where add_dependency says "everything this file waits for has finished", the file IS handed to
+    # the spawner again as a second pass before the coordinator goes on (a first-pass call there is swallowed by the de-duplication of
+    # first passes: the file would never be completed and nobody would wait for it)
+    for b in {x[0].name: x[0] for x in C.all_call_sites(lib, lambda ns, t: ROLE["add_dependency"] in ns)}.values():
+        ad_false = bool_call_edges(b, lib, ROLE["add_dependency"], False, strict=True)
+        heads = [bb for bb, t in b.calls() if C.callee_name(t) == TRY_RECV]
+        reruns = [bb for bb, t in b.calls() if ef.name in C.callee_names(t) and C.op_const(t["args"][pidx - 1]) == "false"]
+        if not ad_false or not heads:
+            continue
+        reach = C.after_edges(b, ad_false, cut=out_edges(b, reruns) | out_edges(b, err_sites(b)))
+        if any(h in reach for h in heads) or any(o in reach for o in ok_sites(b)):
+            ctx.violation([b.name, "no-second-pass"], "when all dependencies of a file have already finished (add_dependency == false) the coordinator can go on "
+                          "without re-running the file as a second pass: it would never be completed", site=ctx.site(b, min(e[0] for e in ad_false)))
+        else:
+            ctx.ok("add_dependency == false always leads to the second pass of that file", site=ctx.site(b, min(e[0] for e in ad_false)))
 
 
 def _ret_shape(b, bb):
